@@ -128,7 +128,7 @@ def rule_retain_all(prog):
     `states.retain(..)`: all states that match are removed (the same key or layer can be held by two physical keys, a
     coordinate can own several states). Handing such a predicate to `position` / `find` / `any` and removing one element
     leaves the other matching states behind: the layer stays active, the key stays down."""
-    res = RuleResult("R-RELEASE-ALL", "State release predicates are only used with retain (all matching states go)", floor=8)
+    res = RuleResult("R-RELEASE-ALL", "State release predicates are only used with retain (all matching states go)", floor=5)
     PRED = ("kanata_keyberon::layout::State::release", "kanata_keyberon::layout::State::release_state", "kanata_keyberon::layout::State::seq_release")
     for f in list(prog.fns.values()):
         if not f.crate.startswith("kanata") or f.derive:
